@@ -5,11 +5,13 @@ package c14
 
 import (
 	"fmt"
+	"math"
 	"strings"
 	"time"
 
 	"github.com/spq/pkappa2/internal/query"
 	"github.com/spq/pkappa2/verifx/mc"
+	"github.com/spq/pkappa2/verifx/ref"
 )
 
 var byteAlphabet = []string{
@@ -65,6 +67,36 @@ func enumTokens(maxLen int, sep string, f func(string)) {
 	rec(nil)
 }
 
+// constructedConjuncts estimates the largest number of conjuncts the normaliser constructs for a
+// space-separated token sequence: an atom that translates into W disjuncts of C conditions becomes,
+// negated, C^W conjuncts of W conditions (before simplification), and so on for every further
+// negation sign in front of it.  The statement claims promptness only below a few hundred.
+func constructedConjuncts(text string) float64 {
+	worst := 1.0
+	negs := 0
+	for _, tok := range strings.Fields(text) {
+		switch {
+		case tok == "-" || tok == "!":
+			negs++
+			continue
+		case strings.Contains(tok, ":") && !strings.HasPrefix(tok, "@") && !strings.HasPrefix(tok, "sort:") && !strings.HasPrefix(tok, "limit:") && !strings.HasPrefix(tok, "group:") && strings.IndexAny(tok, ":.") > 0:
+			wi, ci := ref.AtomShape(tok)
+			w, c := float64(wi), float64(ci)
+			for k := 0; k < negs; k++ {
+				w, c = math.Pow(c, w), w
+				if w > worst {
+					worst = w
+				}
+				if w > 1e6 {
+					break
+				}
+			}
+		}
+		negs = 0
+	}
+	return worst
+}
+
 func buildCases(tier string) []caseT {
 	var cases []caseT
 	seen := map[string]bool{}
@@ -74,7 +106,9 @@ func buildCases(tier string) []caseT {
 				return
 			}
 			seen[s] = true
-			cases = append(cases, caseT{s, fam, prompt})
+			// repeated negation of a multi-valued atom constructs an exponential normal form: outside
+			// the promptness claim (still judged for panics and for equality of two parses)
+			cases = append(cases, caseT{s, fam, prompt && constructedConjuncts(s) <= 300})
 		}
 	}
 	bl, tl := 3, 2
